@@ -51,6 +51,11 @@ pub struct Cfg {
     /// receiver configured with object_receive_once = false (a repeated transfer restarts the object)
     #[serde(default)]
     pub receive_twice: bool,
+    /// RaptorQ / Raptor symbol alignment and number of sub-blocks (0 = 1)
+    #[serde(default)]
+    pub al: u8,
+    #[serde(default)]
+    pub n: u16,
 }
 
 #[derive(Serialize, Deserialize, Clone, Debug)]
@@ -68,7 +73,14 @@ pub struct Prepared {
 
 pub fn prepare(c: &Cfg) -> Result<Prepared, String> {
     let mut o = ObjSpec::simple(c.len, 8);
-    o.oti = Some(OtiSpec::new(c.scheme, c.e, c.b, c.parity, c.inband_fti));
+    let mut oti = OtiSpec::new(c.scheme, c.e, c.b, c.parity, c.inband_fti);
+    if c.al > 0 {
+        oti.al = c.al;
+    }
+    if c.n > 0 {
+        oti.n = c.n;
+    }
+    o.oti = Some(oti);
     o.cenc = c.cenc;
     o.text = c.cenc != 0;
     o.inband_cenc = c.inband_fti && !c.split_cenc;
@@ -331,30 +343,38 @@ fn configs(thorough: bool) -> Vec<Cfg> {
                     }
                     if cenc == 0 && len > 0 && count == 1 {
                         // malformed and cache-exhausting histories (the writer is open when the receiver gives up)
-                        v.push(Cfg { scheme, e, b, parity, len, cenc, inband_fti, count, md5, order: 8, crafted_fdt: false, receive_twice: false, small_cache: false, wrong_md5: false, split_cenc: false });
-                        v.push(Cfg { scheme, e, b, parity, len, cenc, inband_fti, count, md5, order: 9, crafted_fdt: false, receive_twice: false, small_cache: false, wrong_md5: false, split_cenc: false });
+                        v.push(Cfg { scheme, e, b, parity, len, cenc, inband_fti, count, md5, order: 8, crafted_fdt: false, receive_twice: false, small_cache: false, wrong_md5: false, split_cenc: false, al: 0, n: 0 });
+                        v.push(Cfg { scheme, e, b, parity, len, cenc, inband_fti, count, md5, order: 9, crafted_fdt: false, receive_twice: false, small_cache: false, wrong_md5: false, split_cenc: false, al: 0, n: 0 });
                         for order in [0u8, 1, 7] {
-                            v.push(Cfg { scheme, e, b, parity, len: len + 5 * e as usize * b as usize, cenc, inband_fti, count, md5, order, crafted_fdt: false, receive_twice: false, small_cache: true, wrong_md5: false, split_cenc: false });
+                            v.push(Cfg { scheme, e, b, parity, len: len + 5 * e as usize * b as usize, cenc, inband_fti, count, md5, order, crafted_fdt: false, receive_twice: false, small_cache: true, wrong_md5: false, split_cenc: false, al: 0, n: 0 });
                         }
                     }
                     if cenc != 0 && inband_fti && len > 0 && count == 1 {
                         for order in [0u8, 1, 2, 4] {
-                            v.push(Cfg { scheme, e, b, parity, len, cenc, inband_fti, count, md5, order, crafted_fdt: false, receive_twice: false, small_cache: false, wrong_md5: false, split_cenc: true });
+                            v.push(Cfg { scheme, e, b, parity, len, cenc, inband_fti, count, md5, order, crafted_fdt: false, receive_twice: false, small_cache: false, wrong_md5: false, split_cenc: true, al: 0, n: 0 });
                         }
                     }
                     for order in (0..7u8).chain([10u8]) {
-                        v.push(Cfg { scheme, e, b, parity, len, cenc, inband_fti, count, md5, order, crafted_fdt: false, receive_twice: false, small_cache: false, wrong_md5: false, split_cenc: false });
+                        v.push(Cfg { scheme, e, b, parity, len, cenc, inband_fti, count, md5, order, crafted_fdt: false, receive_twice: false, small_cache: false, wrong_md5: false, split_cenc: false, al: 0, n: 0 });
                         if count == 2 && order <= 2 {
-                            v.push(Cfg { scheme, e, b, parity, len, cenc, inband_fti, count, md5, order, crafted_fdt: false, receive_twice: true, small_cache: false, wrong_md5: false, split_cenc: false });
+                            v.push(Cfg { scheme, e, b, parity, len, cenc, inband_fti, count, md5, order, crafted_fdt: false, receive_twice: true, small_cache: false, wrong_md5: false, split_cenc: false, al: 0, n: 0 });
                         }
                         if inband_fti && md5 && order <= 2 && len > 0 {
-                            v.push(Cfg { scheme, e, b, parity, len, cenc, inband_fti, count, md5, order, crafted_fdt: true, receive_twice: false, small_cache: false, wrong_md5: true, split_cenc: false });
+                            v.push(Cfg { scheme, e, b, parity, len, cenc, inband_fti, count, md5, order, crafted_fdt: true, receive_twice: false, small_cache: false, wrong_md5: true, split_cenc: false, al: 0, n: 0 });
                         }
                         if inband_fti && order <= 4 && (thorough || order != 1) {
-                            v.push(Cfg { scheme, e, b, parity, len, cenc, inband_fti, count, md5, order, crafted_fdt: true, receive_twice: false, small_cache: false, wrong_md5: false, split_cenc: false });
+                            v.push(Cfg { scheme, e, b, parity, len, cenc, inband_fti, count, md5, order, crafted_fdt: true, receive_twice: false, small_cache: false, wrong_md5: false, split_cenc: false, al: 0, n: 0 });
                         }
                     }
                 }
+            }
+        }
+    }
+    // RaptorQ with sub-blocks and an alignment (T / Al a multiple of N or not), with and without MD5
+    for (e, b, al, n, len) in [(12u16, 2u16, 4u8, 2u16, 40usize), (16, 2, 4, 2, 40), (24, 3, 4, 3, 100), (12, 2, 1, 2, 40)] {
+        for md5 in [true, false] {
+            for order in [0u8, 1, 2] {
+                v.push(Cfg { scheme: Scheme::RaptorQ, e, b, parity: 2, len, cenc: 0, inband_fti: order != 2, count: 1, md5, order, crafted_fdt: false, receive_twice: false, small_cache: false, wrong_md5: false, split_cenc: false, al, n });
             }
         }
     }
